@@ -51,6 +51,8 @@ def run(chk):
         census(chk, facts, cfg)
         from .sites import run_sites
         run_sites(chk, facts, "C02-d", cfg)
+        from .iterprog import run_iterprog
+        run_iterprog(chk, facts, "C02-h", ("skrifa", "incremental_font_transfer", "shared_brotli_patch_decoder"), 1)
     from . import trec
     trec.run_scope(chk, "C02-b", scope="client", floor=12)
     chk.assume("bounds/overflow sites outside the checked zones (scaler buffer slicing, CFF and autohinter arithmetic), loop "
